@@ -111,6 +111,61 @@ theorem not_below_of_lower {t t' : Tbl} {x : Nat} (hw : WF t) (h : SwapRel t t' 
     · omega
     · omega
 
+/-- before the rooted collection, a node whose count is 0 is one of the old children of a rebuilt
+node (given that no count was 0 when the swap started): the roots passed to the collection
+are complete -/
+theorem zero_in_garbage {m m6 : Mgr} {ext : Nat → Nat} {x : Nat} {ox oy g xf : List Nat}
+    (hI : Inv m) (hR : RefExact m ext) (hz : ∀ k : Nat, m.ref[k]? ≠ some 0)
+    (hP : SwapPrePost m x ox oy g xf m6) (hR6 : RefExact m6 ext) {k : Nat}
+    (hk : m6.ref[k]? = some 0) : k ∈ g := by
+  have hW := hI.wf.toWF
+  have hc := hR6.cnt k 0 hk
+  have hk1 : k ≠ 1 := by intro e; subst e; simp at hc
+  have hi6 : indeg m6.tbl k = 0 := by omega
+  have hnode : (m6.tbl.node? k).isSome := by
+    rcases (hR6.dom k).mp (by rw [hk]; rfl) with h | h
+    · exact absurd h hk1
+    · exact h
+  obtain ⟨nk, hnk⟩ := Option.isSome_iff_exists.mp hnode
+  have hchild : ∀ c nc, m6.tbl.node? c = some nc → (nc.lo.natAbs = k ∨ nc.hi.natAbs = k) → False := by
+    intro c nc hc' hch
+    rcases hch with e | e
+    · have := indeg_pos_of_lo hc'; rw [e] at this; omega
+    · have := indeg_pos_of_hi hc'; rw [e] at this; omega
+  cases h0 : m.tbl.node? k with
+  | none =>
+    obtain ⟨c, nc, hc', hch⟩ := hP.freshParent k nk hnk h0
+    exact (hchild c nc hc' hch).elim
+  | some n0 =>
+    have hmem : m.tbl.Mem (k : Int) := Or.inr (by simp [h0])
+    have hg := hR.get hmem
+    simp only [Int.natAbs_natCast, hk1, if_false, Nat.add_zero] at hg
+    have hpos : 0 < indeg m.tbl k := by
+      have := hz k
+      rw [hg] at this
+      have hx0 : ext k = 0 := by omega
+      apply Nat.pos_of_ne_zero
+      intro e
+      apply this
+      rw [e, hx0]
+    obtain ⟨c, nc, hc', hch⟩ := indeg_pos hpos
+    by_cases hd : IsDep m.tbl x c
+    · obtain ⟨a, b⟩ := hP.garbageAll c nc hd hc'
+      rcases hch with e | e
+      · rw [← e]; exact a
+      · rw [← e]; exact b
+    · exfalso
+      have hsame : ∃ nc', m6.tbl.node? c = some nc' ∧ nc'.lo = nc.lo ∧ nc'.hi = nc.hi := by
+        by_cases h1 : nc.lvl = x + 1
+        · exact ⟨_, hP.rel.up c nc hc' h1 (fun hf => hf), rfl, rfl⟩
+        · by_cases h2 : nc.lvl = x
+          · have hlo : m.tbl.levelOf nc.lo ≠ x + 1 := fun e => hd ⟨nc, hc', h2, Or.inl e⟩
+            have hhi : m.tbl.levelOf nc.hi ≠ x + 1 := fun e => hd ⟨nc, hc', h2, Or.inr e⟩
+            exact ⟨_, hP.rel.indep c nc hc' h2 hlo hhi (fun hf => hf), rfl, rfl⟩
+          · exact ⟨_, hP.rel.other c nc hc' h2 h1, rfl, rfl⟩
+      obtain ⟨nc', hnc', e1, e2⟩ := hsame
+      exact hchild c nc' hnc' (by rw [e1, e2]; exact hch)
+
 /-! ### the whole body -/
 
 theorem Inv.setSched {m : Mgr} (h : Inv m) (s : List SchedItem) : Inv { m with sched := s } :=
@@ -132,6 +187,8 @@ structure SwapPost (m : Mgr) (ext : Nat → Nat) (x : Nat) (r : Nat × Nat) (m' 
   lastLen : m'.lastLen = m.lastLen
   ctx : m'.ctx = m.ctx
   cacheEmpty : m'.cache = {}
+  /-- no unreferenced node is left behind (if there was none before) -/
+  noZero : (∀ k : Nat, m.ref[k]? ≠ some 0) → ∀ k : Nat, m'.ref[k]? ≠ some 0
 
 /-- the swap for FIXED iteration orders of the two levels: always returns normally -/
 theorem swapWith_spec (m : Mgr) (ext : Nat → Nat) (s : List SchedItem) (hI : Inv m) (hV : OrderOK m.tbl)
@@ -206,7 +263,23 @@ theorem swapWith_spec (m : Mgr) (ext : Nat → Nat) (s : List SchedItem) (hI : I
   have hl7 : m7.tbl.l2v = m6.tbl.l2v := hG.sub.l2v
   have hn7 : m7.tbl.nvars = m6.tbl.nvars := by show m7.tbl.vars.size = _; rw [hv7]; rfl
   have hO6 := hP.varsOK
-  refine ⟨_, m7, rfl, ⟨hI7, ?_, hG.refExact, ⟨?_, ?_, ?_⟩, ?_, ?_, rfl, ?_, ?_, hG.cacheEmpty⟩,
+  have hnz : (∀ k : Nat, m.ref[k]? ≠ some 0) → ∀ k : Nat, m7.ref[k]? ≠ some 0 := by
+    intro hz
+    obtain ⟨unused, mf, hrun', hgr, hinv, hmem⟩ :=
+      collectGarbage_run (some (g.map (fun (k : Nat) => (k : Int)))) m6 ext hI6.toInvS hR6 hroots
+    rw [hgc] at hrun'
+    have e7 : m7 = gcFinish mf := by cases hrun'; rfl
+    have hcomp : GcComplete m6 unused := by
+      intro k hk
+      rw [hmem]
+      refine ⟨hk, (k : Int), ?_, by simp⟩
+      simp only [gcRoots, List.mem_map]
+      exact ⟨k, zero_in_garbage hI1 hR1 hz hP hR6 hk, rfl⟩
+    have := (hgr.spec hinv).2.2.2 hcomp
+    intro k
+    rw [e7]
+    exact this k
+  refine ⟨_, m7, rfl, ⟨hI7, ?_, hG.refExact, ⟨?_, ?_, ?_⟩, ?_, ?_, rfl, ?_, ?_, hG.cacheEmpty, hnz⟩,
     hG.sub.sched.trans hP.sched⟩
   · exact ⟨fun v i => by rw [hv7, hl7]; exact hO6.inv v i, fun v i => by rw [hv7, hn7]; exact hO6.lt v i,
       fun i => by rw [hn7, hl7]; exact hO6.total i⟩
